@@ -130,7 +130,7 @@ def _r1(ctx):
             res.violation('R1', 'predicates:not-exclusive:%s' % tag, w,
                           'predicates %s can both be true on a value of kind %s: they are not mutually exclusive' % (trues, tag),
                           case={'value': tag})
-    res.floor('predicate x tag cells', n, 40)
+    res.soft_floor('predicate x tag cells', n, 40)
     # R2
     for tag in ALL_TAGS:
         t = outcomes(ctx, 'ISTEXT', lambda tag=tag: [mkv(tag, 'x')])
@@ -320,7 +320,7 @@ def _r4(ctx):
                     return shape(items)
                 guarded(ctx, 'R4', fn, {'error_at': pos, 'shape': sname, 'others': 'unknown truth'}, mk, _is_err, 'that error on every trace', key='error-in-condition')
                 n += 1
-    res.floor('error-in-condition cases', n, 25)
+    res.soft_floor('error-in-condition cases', n, 25)
 
 
 def _assignment(o):
@@ -388,7 +388,7 @@ def _r5(ctx):
         return o.kind == 'return' and isinstance(o.value, Sym) and 'c' in env and o.value.name == ('A' if env['c'] else 'B')
     guarded(ctx, 'R5', 'IF', {'condition': 'symbolic logical'}, lambda: [Sym('bool', 'c'), Sym('str', 'A'), Sym('str', 'B')], jif,
             'second argument when true, third when false')
-    res.floor('truth-functional cases', n, 35)
+    res.soft_floor('truth-functional cases', n, 35)
 
 
 def _r6(ctx):
